@@ -44,6 +44,14 @@ class C08(Prop):
 
     def generate(self, tier, rng):
         N = 3000 if tier == "quick" else 40000
+        for n in ([65537, 70001] if tier == "quick" else [65536, 65537, 70001, 131073, 200003]):
+            # long vectors (any chunking of the computation must cover every element, the last one included)
+            ys = [Fraction(rng.randint(-8, 8), 2) for _ in range(64)]
+            ys = [ys[(7 * i + i // 64) % 64] for i in range(n)]
+            zs = [ys[(i * 5 + 3) % n] if i % 3 else ys[i] for i in range(n)]
+            zs[-1] = ys[-1] + 3  # the last residual is certainly not zero
+            yield {"stream": "pairs", "f": rng.choice(["mean", "quantile", "median", "expectile"]), "level": "1/4",
+                   "y": [str(v) for v in ys], "z": [str(v) for v in zs]}
         for k in range(N):
             n = rng.randint(1, 12)
             ys = [Fraction(rng.randint(-8, 8), 2) for _ in range(n)]
